@@ -35,8 +35,19 @@ Interval(x, off, clk) ==
   ELSE LET a == Epoch(x.y, x.m, x.d, x.hh, x.mi, x.ss, ZoneOffOn(off, x.y, x.m, x.d))
        IN <<a, a + (CASE x.prec = 1 -> 86399 [] x.prec = 2 -> 3599 [] x.prec = 3 -> 59 [] OTHER -> 0)>>
 
-Grid == UNION { LET iv == Interval(x, off, clk) IN {iv[1] - 1, iv[1], iv[1] + 1, iv[2] - 1, iv[2], iv[2] + 1}
+(* the days on which the zone with daylight saving time (code 1) changes its offset: 2017-03-12 has no 02:00 .. 02:59, 2017-11-05 has    *)
+(* 01:00 .. 01:59 twice.  There a literal is compared with the local time of an entry as the clock on the wall shows it (both 01:30 are   *)
+(* 01:30), so the interval is given in wall-clock seconds and the judge turns every entry time into wall-clock seconds of the zone.       *)
+DstLits == { L(2017, 11, 5, 1, 30, 0, 3), L(2017, 11, 5, 1, 0, 0, 2), L(2017, 11, 5, 0, 0, 0, 1), L(2017, 11, 5, 1, 30, 0, 4),
+             L(2017, 3, 12, 0, 0, 0, 1), L(2017, 3, 12, 3, 0, 0, 2), L(2017, 3, 12, 1, 59, 0, 3) }
+WallInterval(x) == LET a == Epoch(x.y, x.m, x.d, x.hh, x.mi, x.ss, 0)
+                   IN <<a, a + (CASE x.prec = 1 -> 86399 [] x.prec = 2 -> 3599 [] x.prec = 3 -> 59 [] OTHER -> 0)>>
+DstGrid == LET n5 == Epoch(2017, 11, 5, 0, 0, 0, 0)  m12 == Epoch(2017, 3, 12, 0, 0, 0, 0) IN
+   { n5 + x : x \in { 14399, 14400, 17999, 18000, 19799, 19800, 19859, 19860, 21599, 21600, 23399, 23400, 23459, 23460, 25199, 25200, 104399, 104400 } }
+   \cup { m12 + x : x \in { 17999, 18000, 25140, 25199, 25200, 28799, 28800, 100799, 100800 } }
+Grid0 == UNION { LET iv == Interval(x, off, clk) IN {iv[1] - 1, iv[1], iv[1] + 1, iv[2] - 1, iv[2], iv[2] + 1}
                 : x \in AbsLits \cup RelLits, off \in Offsets, clk \in Clocks }
+Grid == Grid0 \cup DstGrid
 RECURSIVE SortSet(_)
 SortSet(S) == IF S = {} THEN <<>> ELSE LET m == CHOOSE x \in S : \A y \in S : x <= y IN <<m>> \o SortSet(S \ {m})
 Instants == SortSet(Grid)
@@ -56,7 +67,9 @@ ChooseRel == /\ phase = "start"
              /\ clock' \in Clocks /\ phase' = "done"
 ChooseStamp == /\ phase = "start" /\ lit' = NoLit /\ op' = "stamp" /\ tz' \in Offsets /\ sep' = "-" /\ quoted' = TRUE
                /\ clock' = 0 /\ phase' = "done"
-Next == ChooseAbs \/ ChooseRel \/ ChooseStamp
+ChooseDst == /\ phase = "start" /\ lit' \in DstLits /\ op' \in Ops /\ tz' = 1 /\ sep' = "-" /\ quoted' = TRUE
+             /\ clock' = Epoch(2017, 5, 1, 12, 0, 0, 0) /\ phase' = "done"
+Next == ChooseAbs \/ ChooseRel \/ ChooseStamp \/ ChooseDst
 Spec == Init /\ [][Next]_vars
 
 LitText == IF lit.word # "" THEN lit.word
@@ -72,8 +85,9 @@ Query == IF op = "stamp" THEN "select name, modified from '.' into list"
 Class == IF op = "stamp" THEN "modified-text/" \o TzName(tz)
          ELSE (IF lit.word # "" THEN "relative:" \o lit.word ELSE "precision" \o ToString(lit.prec)) \o "/" \o op
               \o (IF sep = ":" THEN "/colon" ELSE IF sep = "/" THEN "/day-month-year" ELSE "") \o (IF quoted THEN "" ELSE "/unquoted")
-Scenario == LET iv == IF op = "stamp" THEN <<0, 0>> ELSE Interval(lit, tz, clock) IN
-  [prop |-> "C13", world |-> "W13", class |-> Class, op |-> op, a |-> iv[1], b |-> iv[2], off |-> tz,
+OnDstDay == lit \in DstLits
+Scenario == LET iv == IF op = "stamp" THEN <<0, 0>> ELSE IF OnDstDay THEN WallInterval(lit) ELSE Interval(lit, tz, clock) IN
+  [prop |-> "C13", world |-> "W13", class |-> Class \o (IF OnDstDay THEN "/transition-day" ELSE ""), wall |-> OnDstDay, op |-> op, a |-> iv[1], b |-> iv[2], off |-> tz,
    env |-> [tz |-> TzName(tz), cwd |-> 0, fake_epoch |-> IF lit.word # "" THEN clock ELSE -1],
    runs |-> << [tag |-> "q", ncols |-> IF op = "stamp" THEN 2 ELSE 1, argv |-> << Query >>] >>]
 EmitWorld == (phase = "start") => PrintT(<<"WORLD", ToJson([key |-> "W13", world |-> W13])>>)
